@@ -347,6 +347,53 @@ def run(tier, seed, replay):
         for s in allowed:
             f = qutip.enr_fock(dims, exc, list(s))
             chk("enr-fock", f.full().ravel()[s2i[tuple(s)]] == 1 and abs(f.norm() - 1) < 1e-15, f"enr_fock({dims},{exc},{s})")
+    # thermal states of the restricted space: the full-space product of thermal states cut down and renormalised,
+    # also for modes with mean occupation exactly 0
+    for dims, exc, nbar in (([3, 3], 2, 0.4), ([3, 3], 2, [0.0, 0.4]), ([2, 3], 2, 0.0), ([3, 2, 2], 2, [0.3, 0.0, 1.2]), ([4], 2, 0.0), ([3, 3], 4, [0.7, 0.2])):
+        res = guarded(f"enr_thermal_dm({dims},{exc},{nbar})", lambda: (qutip.enr_thermal_dm(dims, exc, nbar), qutip.enr_state_dictionaries(dims, exc)))
+        if res is None:
+            continue
+        rho_e, (nstates, s2i, i2s) = res
+        nb = list(nbar) if isinstance(nbar, (list, tuple)) else [nbar] * len(dims)
+        fulld = np.real(np.diag(qutip.tensor([qutip.thermal_dm(d_, n_) for d_, n_ in zip(dims, nb)]).full()))
+        full_states = list(itertools.product(*[range(d_) for d_ in dims]))
+        want = np.array([fulld[full_states.index(tuple(i2s[k]))] for k in range(nstates)])
+        want = want / want.sum()
+        got = rho_e.full()
+        chk("enr-thermal", np.all(np.isfinite(got)) and np.abs(got - np.diag(want)).max() < 1e-12 and abs(np.trace(got) - 1) < 1e-12,
+            f"enr_thermal_dm({dims}, {exc}, {nbar}) is not the renormalised restriction of the product of thermal states (diagonal {np.real(np.diag(got)).tolist()} against {want.tolist()})", {"dims": dims, "exc": exc, "nbar": str(nbar)})
+    # ------------------------------------------------------------------ every call of a constructor hands out its own object: what the caller does
+    # to one result (in-place normalisation, tidy-up, new labels) does not reach the results of later calls
+    fresh_table = {
+        "bell_state('00')": lambda: qutip.bell_state("00"), "bell_state('11')": lambda: qutip.bell_state("11"), "singlet_state": qutip.singlet_state,
+        "triplet_states[0]": lambda: qutip.triplet_states()[0], "w_state(3)": lambda: qutip.w_state(3), "ghz_state(3)": lambda: qutip.ghz_state(3),
+        "basis(3,1)": lambda: qutip.basis(3, 1), "fock_dm(3,1)": lambda: qutip.fock_dm(3, 1), "coherent(4,0.5)": lambda: qutip.coherent(4, 0.5),
+        "thermal_dm(3,0.4)": lambda: qutip.thermal_dm(3, 0.4), "maximally_mixed_dm(3)": lambda: qutip.maximally_mixed_dm(3), "zero_ket(3)": lambda: qutip.zero_ket(3),
+        "sigmax": qutip.sigmax, "sigmay": qutip.sigmay, "sigmaz": qutip.sigmaz, "sigmap": qutip.sigmap, "sigmam": qutip.sigmam, "qeye(3)": lambda: qutip.qeye(3),
+        "destroy(3)": lambda: qutip.destroy(3), "num(3)": lambda: qutip.num(3), "jmat(1,'x')": lambda: qutip.jmat(1, "x"), "qutrit_ops[0]": lambda: qutip.qutrit_ops()[0],
+        "qutrit_basis[1]": lambda: qutip.qutrit_basis()[1], "spin_state(1,0)": lambda: qutip.spin_state(1, 0),
+        "hadamard": lambda: G.hadamard_transform(1), "cnot": G.cnot, "swap": G.swap, "iswap": G.iswap, "toffoli": G.toffoli, "fredkin": G.fredkin, "snot": G.snot,
+        "s_gate": G.s_gate, "t_gate": G.t_gate, "cs_gate": G.cs_gate, "ct_gate": G.ct_gate, "berkeley": G.berkeley, "sqrtnot": G.sqrtnot, "sqrtswap": G.sqrtswap,
+        "sqrtiswap": G.sqrtiswap, "csign": G.csign, "cy_gate": G.cy_gate, "cz_gate": G.cz_gate, "clifford[5]": lambda: G.qubit_clifford_group()[5],
+    }
+    for nm_, mk_ in fresh_table.items():
+        first = guarded(nm_, mk_)
+        if first is None:
+            continue
+        snap_m, snap_d = first.full().copy(), [list(x) if isinstance(x, list) else x for x in first.dims]
+        try:
+            with warnings.catch_warnings():
+                warnings.simplefilter("ignore")
+                first.unit(inplace=True, norm="max") if np.abs(snap_m).max() > 0 else None
+                first.tidyup(atol=10.0)
+                first.dims = [[int(first.shape[0])], [int(first.shape[1])]]
+        except Exception:
+            pass
+        second = guarded(nm_, mk_)
+        if second is None:
+            continue
+        chk("constructor-hands-out-shared-object", second is not first and np.array_equal(second.full(), snap_m) and second.dims == snap_d,
+            f"{nm_}: after the first result was normalised / tidied up / relabelled in place by its caller, a second call returns dims {second.dims} and entries of largest size {np.abs(second.full()).max():.3g} (first call: dims {snap_d}, {np.abs(snap_m).max():.3g})", {"constructor": nm_})
     # ------------------------------------------------------------------ gates
     X, Y, Z = qutip.sigmax().full(), qutip.sigmay().full(), qutip.sigmaz().full()
     angles = np.concatenate([np.linspace(-4 * np.pi, 4 * np.pi, 33), rng.uniform(-13, 13, 8), [2 * np.pi, -2 * np.pi, 4 * np.pi, 3 * np.pi, 1e-9]])
